@@ -40,8 +40,19 @@ def _dotted(n: ast.AST) -> str | None:
     return None
 
 
+def _coq_ident(s: str) -> str:
+    """Text safe inside a Coq string literal."""
+    return ''.join(ch if ch.isalnum() or ch in ' @._(),:=-+[]<>/' else '?' for ch in s)
+
+
 def _coq_str(s: str) -> str:
     return '[' + ';'.join(str(ord(c)) for c in s) + ']%N'
+
+
+# markers for the path parameter and os.path.join(self.path, path); they may only occur inside the abspath() call that is
+# the model's SAbs, anything else fails closed (the markers are not Coq terms)
+PATH_PARAM = '<path-parameter>'
+JOINED = '<join(self.path,path)>'
 
 
 class _Tr:
@@ -57,8 +68,6 @@ class _Tr:
 
     def sx(self, n: ast.AST) -> str:
         d = _dotted(n)
-        if d == 'abs_path':
-            return 'SAbs'
         if d == 'self.path':
             return 'SRoot'
         if d in ('os.sep', 'os.path.sep'):
@@ -85,7 +94,12 @@ class _Tr:
             if isinstance(f, ast.Attribute) and f.attr == 'rstrip' and len(n.args) == 1 and self.is_sep(n.args[0]):
                 return f'(SRStrip {self.sx(f.value)})'
             if fd in ('os.path.join', 'posixpath.join') and len(n.args) == 2:
-                return f'(SJoin {self.sx(n.args[0])} {self.sx(n.args[1])})'
+                a, b = self.sx(n.args[0]), self.sx(n.args[1])
+                if a == 'SRoot' and b == PATH_PARAM:
+                    return JOINED                   # os.path.join(self.path, path): only meaningful under abspath
+                return f'(SJoin {a} {b})'
+            if fd in ('os.path.abspath', 'posixpath.abspath') and len(n.args) == 1 and self.sx(n.args[0]) == JOINED:
+                return 'SAbs'                       # the model's abs_path, whatever the local is called
             if fd in ('os.path.commonpath', 'posixpath.commonpath') and len(n.args) == 1 \
                     and isinstance(n.args[0], (ast.List, ast.Tuple)) and len(n.args[0].elts) == 2:
                 a, b = n.args[0].elts
@@ -126,59 +140,169 @@ class _Tr:
         self.fail(n, 'unrecognised boolean expression')
 
 
+# decorators that do not put anything between a caller and the function body (no cache, no wrapper that could answer
+# in its place); everything else on a method of the file-system classes is reported
+NEUTRAL_DECORATORS = {'classmethod', 'staticmethod', 'abstractmethod', 'abc.abstractmethod', 'overload', 'typing.overload',
+                      'override', 'typing.override', 'typing_extensions.override', 'final', 'typing.final',
+                      'typing_extensions.final', 'deprecated', 'typing_extensions.deprecated', 'warnings.deprecated'}
+FS_CLASSES = ('File', 'FileSystem', 'RawFileSystem', 'FileSystemChain')
+
+
+def wrapper_census(tree: ast.Module) -> list[tuple[str, str, str]]:
+    """Everything that can stand between a call of a method of File / FileSystem / RawFileSystem / FileSystemChain and
+    the body the translators read: (class, method, what).
+
+    * a decorator that is not in NEUTRAL_DECORATORS (functools.lru_cache, functools.cache, a home-made memoiser, property ...);
+    * a class-body statement that rebinds the name of a method (`_resolve_path = cache(_resolve_path)`), a second `def` of
+      the same name, `__getattr__` / `__getattribute__` / `__class_getitem__`-style hooks are not needed: only
+      `__getattribute__` and `__getattr__` can answer for an existing or missing method, both are reported;
+    * a statement anywhere in the module that assigns to, deletes or `setattr`s an attribute of one of the classes;
+    * a subclass of RawFileSystem defined in the module that redefines one of its methods."""
+    out: list[tuple[str, str, str]] = []
+    classes = {n.name: n for n in tree.body if isinstance(n, ast.ClassDef)}
+    for cname in FS_CLASSES:
+        cls = classes.get(cname)
+        if cls is None:
+            continue
+        seen: set[str] = set()
+        for st in cls.body:
+            if isinstance(st, (ast.FunctionDef, ast.AsyncFunctionDef)):
+                if st.name in seen:
+                    out.append((cname, st.name, 'defined twice in the class body'))
+                seen.add(st.name)
+                if st.name in ('__getattribute__', '__getattr__'):
+                    out.append((cname, st.name, 'attribute hook'))
+                for dec in st.decorator_list:
+                    d = _dotted(dec.func if isinstance(dec, ast.Call) else dec)
+                    if d not in NEUTRAL_DECORATORS:
+                        out.append((cname, st.name, f'decorator @{ast.unparse(dec)[:60]}'))
+        methods = {m for c in FS_CLASSES if c in classes for f in classes[c].body
+                   if isinstance(f, (ast.FunctionDef, ast.AsyncFunctionDef)) for m in [f.name]}
+        for st in cls.body:
+            if isinstance(st, (ast.Assign, ast.AugAssign)) or (isinstance(st, ast.AnnAssign) and st.value is not None):
+                for t in (st.targets if isinstance(st, ast.Assign) else [st.target]):
+                    for nm in ast.walk(t):
+                        if isinstance(nm, ast.Name) and nm.id in methods:
+                            out.append((cname, nm.id, f'rebound in the class body: {ast.unparse(st)[:60]}'))
+    for node in ast.walk(tree):
+        targets: list[ast.AST] = []
+        if isinstance(node, ast.Assign):
+            targets = list(node.targets)
+        elif isinstance(node, (ast.AugAssign, ast.AnnAssign)):
+            targets = [node.target]
+        elif isinstance(node, ast.Delete):
+            targets = list(node.targets)
+        for t in targets:
+            for sub in ast.walk(t):
+                if isinstance(sub, ast.Attribute) and isinstance(sub.value, ast.Name) and sub.value.id in FS_CLASSES:
+                    out.append((sub.value.id, sub.attr, f'attribute of the class assigned: {ast.unparse(node)[:60]}'))
+        if isinstance(node, ast.Call) and _dotted(node.func) in ('setattr', 'delattr') and node.args \
+                and isinstance(node.args[0], ast.Name) and node.args[0].id in FS_CLASSES:
+            out.append((node.args[0].id, ast.unparse(node.args[1])[:30] if len(node.args) > 1 else '?',
+                        f'{_dotted(node.func)} on the class'))
+    raw_methods = {f.name for f in classes['RawFileSystem'].body if isinstance(f, (ast.FunctionDef, ast.AsyncFunctionDef))} \
+        if 'RawFileSystem' in classes else set()
+    for cname, cls in classes.items():
+        if any(_dotted(b.value if isinstance(b, ast.Subscript) else b) == 'RawFileSystem' for b in cls.bases):
+            for f in cls.body:
+                if isinstance(f, (ast.FunctionDef, ast.AsyncFunctionDef)) and f.name in raw_methods and f.name != '__init__':
+                    out.append((cname, f.name, 'subclass of RawFileSystem redefines the method'))
+    return out
+
+
 def _is_raise_escape(st: ast.stmt) -> bool:
     return (isinstance(st, ast.Raise) and isinstance(st.exc, ast.Call) and _dotted(st.exc.func) == 'RootEscapeError')
 
 
+def _conj(conds: list[str]) -> str:
+    if not conds:
+        return 'GTrue'
+    c = conds[-1]
+    for x in reversed(conds[:-1]):
+        c = f'(GAnd {x} {c})'
+    return c
+
+
 def _resolve_guard(fn: ast.FunctionDef) -> tuple[str, list[str]]:
-    """Translate the body of _resolve_path; returns (gx text of the raise condition, list of source conditions)."""
+    """Translate the body of _resolve_path by symbolic execution of its paths; returns (gx text of the condition under
+    which RootEscapeError is raised, list of the source conditions met).
+
+    The body is a tree of `if` / `else` over pure boolean expressions, assignments of string expressions to locals,
+    `raise RootEscapeError(...)` and `return <the absolute path>`.  Every path through it must end in one of the two;
+    the raise condition is the disjunction, over the paths that raise, of the conjunction of the (possibly negated)
+    tests on the path.  `if c: return abs_path` followed by more statements is therefore the same as `if not c: ...`,
+    an `else: raise` the same as `if not c: raise`, and the names of the locals do not matter: `SAbs` is whatever
+    expression is `os.path.abspath(os.path.join(self.path, path))` after substituting locals."""
     tr = _Tr('_resolve_path')
-    if [a.arg for a in fn.args.args] != ['self', 'path'] or fn.args.vararg or fn.args.kwarg or fn.args.kwonlyargs:
+    params = [a.arg for a in fn.args.args]
+    if len(params) != 2 or fn.args.vararg or fn.args.kwarg or fn.args.kwonlyargs or fn.args.posonlyargs or fn.args.defaults:
         tr.fail(fn, 'unexpected signature')
+    self_name, path_name = params
+    if self_name != 'self':
+        tr.fail(fn, 'first parameter is not self')
+    tr.env[path_name] = PATH_PARAM
     body = [s for s in fn.body if not (isinstance(s, ast.Expr) and isinstance(s.value, ast.Constant))]
     if not body:
         tr.fail(fn, 'empty body')
-    first = body[0]
-    if not (isinstance(first, ast.Assign) and len(first.targets) == 1 and _dotted(first.targets[0]) == 'abs_path'
-            and ast.unparse(first.value) == 'os.path.abspath(os.path.join(self.path, path))'):
-        tr.fail(first, 'first statement is not abs_path = os.path.abspath(os.path.join(self.path, path))')
-    last = body[-1]
-    if not (isinstance(last, ast.Return) and _dotted(last.value) == 'abs_path'):
-        tr.fail(last, 'last statement is not `return abs_path`')
     raise_conds: list[str] = []
     srcs: list[str] = []
+    n_return = [0]
 
-    def block(stmts: list[ast.stmt], conds: list[str], top: bool) -> None:
+    def block(stmts: list[ast.stmt], conds: list[str]) -> list[str] | None:
+        """Run the statements under the path condition `conds`; returns the path condition with which control falls
+        out of the block, or None when every path through it returned or raised."""
         for st in stmts:
-            if isinstance(st, ast.Assign) and len(st.targets) == 1 and isinstance(st.targets[0], ast.Name):
-                name = st.targets[0].id
-                if name in ('abs_path', 'path', 'self'):
-                    tr.fail(st, 'abs_path/path reassigned before the check')
-                tr.env[name] = tr.sx(st.value)
+            if isinstance(st, (ast.Assign, ast.AnnAssign)):
+                targets = st.targets if isinstance(st, ast.Assign) else [st.target]
+                if len(targets) != 1 or not isinstance(targets[0], ast.Name) or st.value is None:
+                    tr.fail(st, 'assignment to something other than one local name')
+                if targets[0].id == self_name:
+                    tr.fail(st, 'self reassigned')
+                tr.env[targets[0].id] = tr.sx(st.value)
             elif isinstance(st, ast.If):
-                if st.orelse:
-                    tr.fail(st, '`else` branch in the containment check')
                 g = tr.gx(st.test)
                 srcs.append(ast.unparse(st.test))
-                block(st.body, conds + [g], False)
+                saved = dict(tr.env)
+                out_t = block(st.body, conds + [g])
+                env_t, tr.env = tr.env, dict(saved)
+                out_f = block(st.orelse, conds + [f'(GNot {g})'])
+                env_f = tr.env
+                if out_t is not None and out_f is not None:
+                    if env_t != env_f:
+                        tr.fail(st, 'locals assigned differently in two branches that both continue')
+                    tr.env = env_t                      # both continue with the same locals: the test is irrelevant
+                elif out_t is not None:
+                    conds, tr.env = out_t, env_t
+                elif out_f is not None:
+                    conds, tr.env = out_f, env_f
+                else:
+                    return None
             elif _is_raise_escape(st):
-                if top:
-                    tr.fail(st, 'unconditional raise')
-                c = conds[-1]
-                for x in reversed(conds[:-1]):
-                    c = f'(GAnd {x} {c})'
-                raise_conds.append(c)
-            elif isinstance(st, ast.Pass):
+                raise_conds.append(_conj(conds))
+                return None
+            elif isinstance(st, ast.Return):
+                if st.value is None or tr.sx(st.value) != 'SAbs':
+                    tr.fail(st, 'returns something other than os.path.abspath(os.path.join(self.path, path))')
+                n_return[0] += 1
+                return None
+            elif isinstance(st, ast.Pass) or (isinstance(st, ast.Expr) and isinstance(st.value, ast.Constant)):
                 pass
             else:
                 tr.fail(st, 'unrecognised statement')
+        return conds
 
-    block(body[1:-1], [], True)
+    if block(body, []) is not None:
+        tr.fail(fn, 'a path through the function ends without return or raise')
+    if not n_return[0]:
+        tr.fail(fn, 'no path returns')
     if not raise_conds:
-        return 'GFalse', srcs
-    g = raise_conds[-1]
-    for x in reversed(raise_conds[:-1]):
-        g = f'(GOr {x} {g})'
+        g = 'GFalse'
+    else:
+        g = raise_conds[-1]
+        for x in reversed(raise_conds[:-1]):
+            g = f'(GOr {x} {g})'
+    if PATH_PARAM in g or JOINED in g:
+        tr.fail(fn, 'the raise condition reads the path argument other than through abspath(join(self.path, path))')
     return g, srcs
 
 
@@ -260,10 +384,22 @@ def translate() -> tuple[str, dict]:
                          and x.value.id == 'constrain_path' and 'constrain_path' in init_params for fn, x in con_stores)
     con_elsewhere = any(fn != '__init__' for fn, _ in con_stores) or sum(1 for fn, _ in con_stores if fn == '__init__') != 1
     guard, srcs = _resolve_guard(resolve)
-    sites = _access_sites(raw)
+    # the census of access sites is taken from the data-flow interpreter of translate/c18_ops.py (helper methods inlined,
+    # locals followed); only if that one cannot read the class the syntactic census below is used
+    try:
+        from translate import c18_ops
+        by_site: dict[tuple, bool] = {}
+        for m, c, _b, pexp, line in c18_ops.translate()[1]['raw_sites']:
+            by_site[(m, c, line)] = by_site.get((m, c, line), True) and pexp.startswith('(PResolve ')
+        sites = [(m, c, line, ok) for (m, c, line), ok in by_site.items()]
+    except TranslateError:
+        sites = _access_sites(raw)
     if not sites:
         raise TranslateError('filesys.py: RawFileSystem has no recognised file-system access site')
     up = _unify_path_shape(ast.parse(src_text('packlist.py')))
+    # anything between a caller of _resolve_path / __init__ and the bodies translated above (seeded c18_4: lru_cache)
+    wrappers = [w for w in wrapper_census(tree) if w[1] in ('_resolve_path', '__init__', '__getattribute__', '__getattr__')
+                and w[0] in ('RawFileSystem', 'FileSystem') or w[2].startswith('subclass') and w[1] == '_resolve_path']
     lines = [
         '(* GENERATED by translate/c18_guard.py from /repo/src/srctools/filesys.py, packlist.py. Do not edit. *)',
         'From Coq Require Import NArith List String.', 'From SV Require Import SM.PathNorm.',
@@ -273,6 +409,9 @@ def translate() -> tuple[str, dict]:
         f'Definition root_is_abspath : bool := {"true" if root_abs else "false"}.',
         f'Definition root_reassigned_in_class : bool := {"true" if path_stores else "false"}.',
         f'Definition constrain_flag_is_the_constructor_argument : bool := {"true" if con_from_param and not con_elsewhere else "false"}.',
+        '(* decorators / rebindings / attribute hooks standing between a caller and the body of _resolve_path, __init__ *)',
+        'Definition resolve_path_wrappers : list (string * string * string) := [',
+        ';\n'.join(f'  ("{c}", "{m}", "{_coq_ident(w)}")' for c, m, w in wrappers), '].',
         '(* every file-system access of RawFileSystem: (method, callee, path argument is a _resolve_path result) *)',
         'Definition access_sites : list (string * string * bool) := [',
         ';\n'.join(f'  ("{m}", "{c}", {"true" if ok else "false"})' for m, c, _, ok in sites),
@@ -280,7 +419,7 @@ def translate() -> tuple[str, dict]:
         '',
     ]
     side = {'raise_if': guard, 'source_conditions': srcs, 'root_is_abspath': root_abs,
-            'access_sites': [list(s) for s in sites], 'unify_path': up,
+            'access_sites': [list(s) for s in sites], 'unify_path': up, 'resolve_path_wrappers': [list(w) for w in wrappers],
             'resolve_digest': ast_digest(resolve), 'line': resolve.lineno}
     return '\n'.join(lines), side
 
